@@ -5,7 +5,8 @@ Space: every operand list of length 0..n over the shapes
   (do (setv t (log i a)) t) | V value-less statement (setv t (log i a)), whose
   value is None | NA (and E E) | NO (or E E) | NS (or E S) | EA (and) | EO (or)
 for both operators, each compiled ONCE by the real compiler as a function of
-its operand values, in every context: value position, (setv a_k (op ...)) and
+its operand values, in every context: value position, (setv r (op ...)) and
+(setx r (op ...)) with a fresh r, (setv a_k (op ...)) and
 (setx a_k (op ...)) for every operand variable a_k (the assignment target is
 then also an operand), and executed under EVERY truthiness assignment of the
 operand values, for three value families (0/1.., []/[k], None/"s").
@@ -31,19 +32,19 @@ ASSUMPTIONS = [
     "and/or operand order is documented (left to right, short-circuit), so the trace comparison is exact",
 ]
 
-SHAPES = ["P", "E", "S", "V", "NA", "NO", "NS", "EA", "EO"]
-NPARAMS = {"P": 1, "E": 1, "S": 1, "V": 1, "NA": 2, "NO": 2, "NS": 2, "EA": 0, "EO": 0}
+SHAPES = ["P", "E", "S", "V", "IF", "NA", "NO", "NS", "EA", "EO"]
+NPARAMS = {"P": 1, "E": 1, "S": 1, "V": 1, "IF": 1, "NA": 2, "NO": 2, "NS": 2, "EA": 0, "EO": 0}
 
 BOUNDS = {
-    "quick": dict(runs=[(SHAPES, 3), (["P", "E", "S", "V", "NS", "EA"], 4)], shards=64),
-    "thorough": dict(runs=[(SHAPES, 4), (["P", "E", "S", "V", "NS", "EA"], 5), (["P", "E", "S"], 8)], shards=512),
+    "quick": dict(runs=[(SHAPES, 3), (["P", "E", "S", "V", "NS", "EA"], 4), (["P", "S", "IF"], 5), (["P", "S"], 6)], shards=64),
+    "thorough": dict(runs=[(SHAPES, 4), (["P", "E", "S", "V", "NS", "EA"], 5), (["P", "S", "IF"], 6), (["P", "E", "S"], 8)], shards=512),
 }
 TIME_CAP = {"quick": 900, "thorough": 5400}
 
 
 def bounds(tier):
     return {"shape_alphabets_and_max_arity": BOUNDS[tier]["runs"], "operators": ["and", "or"],
-            "contexts": ["value", "setv a_k", "setx a_k"], "value_families": ["int", "list", "none/str"]}
+            "contexts": ["value", "setv r (fresh)", "setx r (fresh)", "setv a_k", "setx a_k"], "value_families": ["int", "list", "none/str"]}
 
 
 def _lists(tier):
@@ -79,6 +80,8 @@ def build(op, shapes):
             kids.append(("stmt", next(site), next(p)))
         elif sh == "V":
             kids.append(("vstmt", next(site), next(p)))
+        elif sh == "IF":
+            kids.append(("ifs", next(site), next(p)))
         elif sh == "EA":
             kids.append(("and", []))
         elif sh == "EO":
@@ -99,6 +102,8 @@ def render(t):
         return f"(do (setv t{t[1]} (log {t[1]} a{t[2]})) t{t[1]})"
     if t[0] == "vstmt":
         return f"(setv t{t[1]} (log {t[1]} a{t[2]}))"
+    if t[0] == "ifs":
+        return f"(if a{t[2]} (do (setv t{t[1]} (log {t[1]} a{t[2]})) t{t[1]}) a{t[2]})"
     return "(" + " ".join([t[0]] + [render(k) for k in t[1]]) + ")"
 
 
@@ -112,6 +117,10 @@ def ref_eval(t, vals, trace):
     if t[0] == "vstmt":
         trace.append(t[1])
         return None           # (setv ...) evaluates its value form and returns None
+    if t[0] == "ifs":
+        if vals[t[2]]:
+            trace.append(t[1])
+        return vals[t[2]]
     if t[0] == "and":
         v = True
         for k in t[1]:
@@ -136,6 +145,10 @@ def program(tree, nparams, ctx):
         return f"(defn f [{params}] (setv a{ctx[1]} {body}) a{ctx[1]})"
     if ctx[0] == "setx":
         return f"(defn f [{params}] [(setx a{ctx[1]} {body}) a{ctx[1]}])"
+    if ctx[0] == "setvr":
+        return f"(defn f [{params}] (setv r {body}) r)"
+    if ctx[0] == "setxr":
+        return f"(defn f [{params}] [(setx r {body}) r])"
     raise ValueError(ctx)
 
 
@@ -186,7 +199,7 @@ def check_unit(acc, op, shapes, ctx, sample=False):
                 acc.disagree("raised", dict(case, bits=list(bits), family=fam), f"{type(e).__name__}: {e}",
                              sig="raised:" + sig_shape, exc=type(e).__name__)
                 return
-            if ctx[0] == "setx":
+            if ctx[0] in ("setx", "setxr"):
                 ok_val = isinstance(got, list) and len(got) == 2 and _same(got[0], expected) and _same(got[1], expected)
             else:
                 ok_val = _same(got, expected)
@@ -214,7 +227,7 @@ def _all_sites(t):
     out = []
 
     def w(t):
-        if t[0] in ("log", "stmt", "vstmt"):
+        if t[0] in ("log", "stmt", "vstmt", "ifs"):
             out.append(t[1])
         elif t[0] in ("and", "or"):
             for k in t[1]:
@@ -224,7 +237,7 @@ def _all_sites(t):
 
 
 def contexts(nparams):
-    out = [("value",)]
+    out = [("value",), ("setvr",), ("setxr",)]      # r: a fresh variable no operand reads
     for k in range(nparams):
         out.append(("setv", k))
         out.append(("setx", k))
